@@ -36,6 +36,11 @@ def elem_access(ptr):
         base = t[1]
         if base[0] == "addr":
             return ("at", base[1], None, None, ()), t[2]
+    if t[0] == "field" and t[2] == "0" and t[1][0] == "dc" and t[1][2] == "Some":
+        # the reference inside Some(..) returned by get(i) / get_mut(i)
+        g = t[1][1]
+        if g[0] == "call" and g[1] in ("slice::get", "slice::get_mut") and len(g[3]) == 2:
+            return strip_ref(g[3][0]), g[3][1]
     return None, None
 
 
@@ -79,6 +84,22 @@ class Trav:
                        and ev["args"][0][0] == "addr" and ev["args"][0][1].startswith("A1.")]
         self.W = self.pops[0]["args"][0][1] if self.pops else None
         self.P = [("field", ("dc", ev["res"], "Some"), "0") for ev in self.pops]
+        # one popped element: the payload of the only pop, or the phi that merges the payloads of all pops
+        # of the same worklist (`let mut e = w.pop()?; while stale(e) { e = w.pop()?; }`)
+        self.P1 = None
+        same_w = all(ev["args"][0][1] == self.W and ev["key"] == self.pops[0]["key"] for ev in self.pops)
+        if len(self.pops) == 1:
+            self.P1 = self.P[0]
+        elif self.pops and same_w:
+            for b, vs in an.phis.items():
+                for var in vs:
+                    if var.startswith("v"):
+                        ins = an.phi_inputs(b, var)
+                        phi = ("phi", b, var)
+                        if len(ins) >= 2 and all(x in self.P or x == phi for x in ins) and set(self.P) <= set(ins):
+                            self.P1 = phi
+            if self.P1 is not None:
+                self.P = [self.P1] + self.P
         # neighbour loops: Iterator::next sites whose iterator is out_neighbors*(digraph, V)
         self.nloops = []
         for ev in an.events:
@@ -358,11 +379,11 @@ def rule_schema_bfs(crate, prop, tier):
         marks = field_of_kind(crate, S, lambda t: is_vec_of(t, "bool"))
         M = "A1." + marks[0] if marks else None
         pv = tr.popped_vertex_path()
-        o.check(len(tr.pops) == 1 and M and pv is not None and len(tr.nloops) == 1, tr, "shape",
+        o.check(tr.P1 is not None and M and pv is not None and len(tr.nloops) == 1, tr, "shape",
                 "next() does not have the BFS shape: one pop, one visited array, one loop over out_neighbors(popped vertex)")
-        if not (len(tr.pops) == 1 and M and pv is not None and len(tr.nloops) == 1):
+        if not (tr.P1 is not None and M and pv is not None and len(tr.nloops) == 1):
             continue
-        P = tr.P[0]
+        P = tr.P1
         nl = tr.nloops[0]
         # B4 FIFO
         popk = tr.pops[0]["key"]
@@ -530,6 +551,30 @@ def extra_conditions(tr, nl, b, allowed):
     return out
 
 
+def region_inits(an, R):
+    """values assigned to the whole local region R (by an assignment or as the destination of a call)"""
+    out = [ev["val"] for ev in an.events if ev["k"] == "store" and ev["region"] == R]
+    for ev in an.events:
+        if ev["k"] == "call":
+            mode, name, vp = an.walk_place(an.blocks[ev["b"]]["term"]["dest"])
+            if mode == "mem" and name == R:
+                out.append(ev["res"])
+    return out
+
+
+def extra_push_conditions(an, fx, lev, pushes):
+    """conditions (other than the loop's own Some edge) under which a push inside the loop over `lev` happens"""
+    class _T:
+        pass
+    t = _T()
+    t.an, t.fx = an, fx
+    nl = {"ev": lev}
+    out = []
+    for pu in pushes:
+        out += extra_conditions(t, nl, pu["b"], lambda a: False)
+    return out
+
+
 def is_range_guard(a, v):
     """v < something / something <= ... : the bounds assertions on the neighbour id"""
     return a[0] in ("lt", "le") and (a[1] == v or a[2] == v)
@@ -547,11 +592,11 @@ def rule_schema_dfs(crate, prop, tier):
         marks = field_of_kind(crate, S, lambda t: is_vec_of(t, "bool"))
         M = "A1." + marks[0] if marks else None
         pv = tr.popped_vertex_path()
-        shape = len(tr.pops) == 1 and M and pv is not None and len(tr.nloops) == 1
+        shape = tr.P1 is not None and M and pv is not None and len(tr.nloops) == 1
         if not o.check(shape, tr, "shape", "next() does not have the stack-DFS shape: one pop, one visited array, "
                        "one loop over out_neighbors(popped vertex)"):
             continue
-        P = tr.P[0]
+        P = tr.P1
         u = apply_path(P, pv)
         nl = tr.nloops[0]
         # D4 LIFO
@@ -622,19 +667,38 @@ def rule_schema_dfs(crate, prop, tier):
                         src = ev["args"][0]
                 elif wv[0] == "call" and wv[1] == "core::iter::traits::iterator::Iterator::collect":
                     src = wv[3][0]
-                if nm == "Dfs":
-                    o.check(src == ("arg", 2), tr, "D5-seeds", "`new` does not seed the stack with exactly the sources")
-                else:
-                    okseed = False
-                    if src is not None and src[0] == "call" and src[1] == "core::iter::traits::iterator::Iterator::map" \
+                def seed_elem_ok(E, item):
+                    if nm == "Dfs":
+                        return E == item
+                    if not (E[0] == "agg" and len(E[3]) == 2):
+                        return False
+                    if nm == "DfsDist":
+                        return E[3][0] == item and const_is(E[3][1], 0)
+                    return E[3][1] == item and E[3][0][0] == "agg" and E[3][0][2][1] == "None"
+                okseed = False
+                if src is not None:
+                    if nm == "Dfs":
+                        okseed = src == ("arg", 2)
+                    elif src[0] == "call" and src[1] == "core::iter::traits::iterator::Iterator::map" \
                             and src[3][0] == ("arg", 2) and src[3][1][0] == "agg" and src[3][1][1] == "closure":
                         r = closure_return(crate, src[3][1][2])
-                        if r is not None and r[0] == "agg" and len(r[3]) == 2:
-                            if nm == "DfsDist":
-                                okseed = r[3][0] == ("arg", 2) and const_is(r[3][1], 0)
-                            else:
-                                okseed = r[3][1] == ("arg", 2) and r[3][0][0] == "agg" and r[3][0][2][1] == "None"
-                    o.check(okseed, tr, "D5-seeds", "`new` does not seed the stack with (source, 0) / (None, source)")
+                        okseed = r is not None and seed_elem_ok(r, ("arg", 2))
+                else:
+                    # explicit loop: every source is pushed on an initially empty local stack
+                    qL = local_region_of_value(wv)
+                    can2, cfx2, lev, item = sources_loop(crate, ctor)
+                    if qL is not None and lev is not None:
+                        pushes = [ev for ev in can2.events if ev["k"] == "call" and ev["key"] in PUSH_KEYS and ev["args"]
+                                  and ev["args"][0][0] == "addr" and ev["args"][0][1] == qL]
+                        inits = region_inits(can2, qL)
+                        empty = len(inits) == 1 and inits[0][0] in ("call", "site") and \
+                            (inits[0][1] if inits[0][0] == "call" else inits[0][2]) in ("alloc::vec::Vec::new", "alloc::vec::Vec::with_capacity")
+                        body = can2.cfg.loops.get(can2.cfg.loop_of(lev["b"]), set())
+                        okseed = empty and len(pushes) >= 1 and all(seed_elem_ok(pu["args"][1], item) and pu["b"] in body for pu in pushes) \
+                            and complete_scan(can2, cfx2, lev) and \
+                            not extra_push_conditions(can2, cfx2, lev, pushes)
+                o.check(okseed, tr, "D5-seeds", "`new` does not seed the stack with exactly the sources "
+                        "(as source / (source, 0) / (None, source))")
         if nm == "DfsPred":
             check_fold(crate, o, S, "predecessors", tr, fill=None, idx_path=(1,), val_path=(0,))
     return o.report(floors={"DFS iterators": (o.instances, 1)})
@@ -676,11 +740,11 @@ def rule_schema_dj(crate, prop, tier):
         dists = field_of_kind(crate, S, lambda t: is_vec_of(t, "usize"))
         Dm = "A1." + dists[0] if dists else None
         pv = tr.popped_vertex_path()
-        shape = len(tr.pops) == 1 and Dm and pv is not None and len(tr.nloops) == 1 and tr.nloops[0]["w"] is not None
+        shape = tr.P1 is not None and Dm and pv is not None and len(tr.nloops) == 1 and tr.nloops[0]["w"] is not None
         if not o.check(shape, tr, "shape", "next() does not have the lazy-deletion Dijkstra shape: one heap pop, one dist "
                        "array, one loop over out_neighbors_weighted(popped vertex)"):
             continue
-        P = tr.P[0]
+        P = tr.P1
         u = apply_path(P, pv)
         key = mk_field(mk_field(P, "0", 0), "0", 0)     # (Reverse(k), ..).0.0
         nl = tr.nloops[0]
